@@ -126,7 +126,16 @@ def _job0(job):
         if same:
             args[same[1]] = args[same[0]]
         kw = dict((p, w.var(p, "idx")) for p in params)
-        node = w.app(ctor, *args, **kw)
+        second = None
+        try:
+            node = w.app(ctor, *args, **kw)
+        except AbsRaise as first:
+            # a rejected application is requested again: it must be rejected again (no half-built node handed out)
+            try:
+                node = w.app(ctor, *args, **kw)
+            except AbsRaise:
+                raise first
+            second = first.cls_name
         if not w.is_node(node):
             raise Unsupported("constructor returned %r" % (node,))
         # the construction went through: the node exists.  What a (fresh) checker says about it:
@@ -134,7 +143,7 @@ def _job0(job):
             t = it.call(it.getattr(stc, "get_type"), [node])
         except AbsRaise:
             t = None
-        return (w, node, t)
+        return (w, node, t) if second is None else (w, node, t, second)
     try:
         paths = Explorer(max_paths=200).run(one)
     except Unsupported as e:
@@ -171,12 +180,17 @@ def _job0(job):
                     got = None
                     how = p.value.cls_name
                 else:
-                    w, node, t = p.value
+                    w, node, t = p.value[:3]
                     try:
                         got = sc.sort_conc(w.sort_of_tyobj(t), asg) if t is not None else ("UNTYPABLE",)
                     except Exception as e:
                         return [(ctor, op, sorts, "unsupported", "type object %r" % (t,))]
                     how = "accepted"
+                    if len(p.value) > 3:
+                        out.append((ctor, op, sorts, "accepts-ill-typed" if exp is None else "rejects-well-typed",
+                                    "%s(%s)%s is rejected (%s) when it is requested first and handed out as a formula when it is requested again"
+                                    % (ctor, ", ".join(map(_s, cs)), (" %s" % dict(zip(params, pv))) if params else "", p.value[3])))
+                        break
                     if t is not None and w.opname(node) != op and exp is None:
                         # the constructor rewrote the application into something else that is well typed
                         how = "rewritten to %s" % w.opname(node)
